@@ -158,7 +158,7 @@ def _b_gen150(step, env):
         # one-shot generator crossing the 100-row inference sample (values stay within the inferred types: the loader
         # casts every row with the schema inferred from the sample)
         for i in range(150):
-            yield {'n': i, 't': 's%d' % i if i % 7 else None}
+            yield {'n': i, 't': 's%d' % i if i % 7 else None, 'x': i / 10}
     return gen()
 
 
@@ -246,7 +246,8 @@ BUILTINS = {
     'checkpoint': {'op': 'checkpoint_first'},
     'finalizer': S('finalizer', {'$fn': 'e1_finalizer_cb', 'env': True}),
     'update_stats': S('update_stats', {'k': 1}),
-    'iterable': {'op': 'iterable', 'rows': [{'a': 9, 'w': 'i'}, {'a': 8, 'w': None}]},
+    # (x: fractions that are not exact in binary - an in-memory source delivers them as the numbers its schema declares)
+    'iterable': {'op': 'iterable', 'rows': [{'a': 9, 'w': 'i', 'x': {'$float': '0.1'}}, {'a': 8, 'w': None, 'x': {'$float': '0.2'}}]},
     'gen150': {'op': 'gen150'},
     'gen_fail120': {'op': 'gen_fail120'},
     'row_fail2': {'op': 'row_fail2'},
@@ -720,6 +721,15 @@ def check_variants(init, path, lz, sw):
                          % (', '.join(path), d)))
         elif rr['tree'] != lz['tree']:
             viol.append(('results', 'Flow(%s).results(): side effects differ from datastream()' % ', '.join(path)))
+        else:
+            # the rows themselves, with their Python types: results() validates at the end, which must not change anything in
+            # a stream whose values are already what its descriptor declares (every input and every symbol here delivers such
+            # values). Packages with duplicate resource names are skipped: results() pairs rows and schemas by name (C02 finding).
+            names = base.names()
+            if len(set(names)) == len(names) and [enc_rows(x) for x in base.rows] != [enc_rows(x) for x in a.rows]:
+                k = next(i for i, (x, y) in enumerate(zip(base.rows, a.rows)) if enc_rows(x) != enc_rows(y))
+                viol.append(('results-vs-datastream', 'Flow(%s): datastream() delivers %r for resource %r, results() %r'
+                             % (', '.join(path), base.rows[k][:2], names[k], a.rows[k][:2])))
     pr = _run_record(steps, positions, via='process')
     if pr['res'][0] != rr['res'][0]:
         viol.append(('process', 'Flow(%s).process() %s but results() %s' % (', '.join(path), pr['res'][0], rr['res'][0])))
